@@ -396,7 +396,7 @@ void __wrap_abort(void)
 static std::string shmName(const char *name)
 {
     std::string n = name;
-    if (g_active) { std::string tag = g_scn.rundir; for (auto &c : tag) if (c == '/') c = '_'; n += "-" + tag; if (n.size() > 240) n = n.substr(0, 1) + std::to_string(hashStr(7, n)); }
+    if (g_active) { if (n.size() > 1 && n[0] == '/') n = "/vsim-" + n.substr(1); /* not squid-*: other squids' cleanup scripts on this host must not hit our segments */ std::string tag = g_scn.rundir; for (auto &c : tag) if (c == '/') c = '_'; n += "-" + tag; if (n.size() > 240) n = n.substr(0, 1) + std::to_string(hashStr(7, n)); }
     return n;
 }
 int __wrap_shm_open(const char *name, int flags, mode_t mode)
